@@ -184,6 +184,33 @@ def install(R):
         return m
     for mname in ("predict_proba", "transform", "decision_function"):
         R.methods[("estimator", mname)] = rowwise2(mname)
+    _plain_transform = R.methods[("estimator", "transform")]
+
+    def m_transform_any(E, recv, args, kwargs, node):
+        """transform of an opaque estimator; an opaque RECIPROCAL transformer (fields['$reciprocal'], mlinsights' BaseReciprocalTransformer
+        protocol) takes (X, y) and returns the pair (X, transformed y) - None stays None, the features are returned as they are"""
+        if not recv.fields.get("$reciprocal"):
+            return _plain_transform(E, recv, args, kwargs, node)
+        b = dict(zip(["X", "y"], args)); b.update(kwargs)
+        maybe_raise(E, "transform", node)
+        y = b.get("y")
+        yt = None
+        if isinstance(y, NdArr):
+            yt = NdArr.fresh("y_transformed", tuple(y.shape), "real")
+        elif y is not None:
+            raise Unsupported("reciprocal transform of %r" % (y,))
+        E.trace.append(dict(op="rtransform", obj=recv, X=b.get("X"), y=y, result=yt, state=recv.fields["$state"]))
+        return (b.get("X"), yt)
+    R.methods[("estimator", "transform")] = m_transform_any
+
+    def m_get_fct_inv(E, recv, args, kwargs, node):
+        inv = new_estimator(E, recv.fields.get("$name", "tr") + "_inverse", recv.fields["$class"], recv.fields["$methods"], True,
+                            recv.fields["$params"], recv.fields["$bases"])
+        inv.fields["$reciprocal"] = True
+        inv.fields["$inverse_of"] = recv
+        E.trace.append(dict(op="get_fct_inv", obj=recv, result=inv))
+        return inv
+    R.methods[("estimator", "get_fct_inv")] = m_get_fct_inv
 
     def m_fit_transform(E, recv, args, kwargs, node):
         """scikit-learn's TransformerMixin.fit_transform: fit(X, y, ...) then transform(X)"""
@@ -253,7 +280,7 @@ def install(R):
                 o.fields[pf] = _clone(E, v, False) if isinstance(v, Obj) and v.tag == "estimator" else v
             if "$param_fields" in est.fields:
                 o.fields["$param_fields"] = list(est.fields["$param_fields"])
-            for k in ("$width_predict_proba", "$width_transform", "$width_decision_function", "$fitted_attrs", "$fit_params"):
+            for k in ("$width_predict_proba", "$width_transform", "$width_decision_function", "$fitted_attrs", "$fit_params", "$reciprocal"):
                 if k in est.fields:
                     o.fields[k] = est.fields[k]
             E.trace.append(dict(op="clone", obj=est, result=o))
